@@ -207,6 +207,7 @@ def remove_poly_structure(V, level, deg):
         return ((a,), dict(poly_fit=deg))
     fn = S_ + 'Signal.remove_poly' if level == 'object' else 'eqsig.fns.generic.remove_poly'
     for out in V.run(fn, setup):
+        out.replay_info = dict(module='filter', op='remove_poly', level=level, deg=deg)
         if not out.no_raise():
             continue
         o, a, n = st['o'], st['a'], st['n']
@@ -237,6 +238,7 @@ def remove_poly_exact(V, level, deg):
     fn = S_ + 'Signal.remove_poly' if level == 'object' else 'eqsig.fns.generic.remove_poly'
     f_arr = V.itp.get_function('eqsig.fns.generic.remove_poly')
     for out in V.run(fn, setup):
+        out.replay_info = dict(module='filter', op='remove_poly', level=level, deg=deg)
         if not out.no_raise():
             continue
         o, a, n = st['o'], st['a'], st['n']
